@@ -87,7 +87,7 @@ def replay_behaviours(rep, sim_cfg, num, depth=12, seed_off=1, nontrivial=None, 
   return [behs[i] for i in chosen]
 
 
-def replay_scenarios(rep, scen_cfg, max_files=400, nontrivial=None, fields=None, timeout=150, depth=8, replay_fn=None):
+def replay_scenarios(rep, scen_cfg, max_files=400, nontrivial=None, fields=None, timeout=150, depth=8, replay_fn=None, salts=(0,)):
   """Scenario-directed export (GinCore_Scen): one shortest behaviour per scenario key."""
   import os, shutil, re
   wd = tlc.scratch()
@@ -120,7 +120,11 @@ def replay_scenarios(rep, scen_cfg, max_files=400, nontrivial=None, fields=None,
         k = nontrivial(st)
         if k is not None:
           rep.nontrivial_case(k)
-    d = (replay_fn or A.replay)(b, **kw)
+    d = None
+    for salt in salts:          # the same behaviour under several concretisations (literal pools, spellings, exception kinds)
+      d = (replay_fn or A.replay)(b, **(dict(kw, salt=salt) if salt else kw))
+      if d is not None:
+        break
     if d is not None:
       sig = dict(kind='replay-divergence', module='GinCore', clause=d.get('clause'), action=d.get('action'))
       rep.violation(sig, dict(kind='behaviour', sim_cfg=scen_cfg, actions=A.actions_of(b), divergence=d, behaviour=b))
